@@ -142,13 +142,16 @@ def run(tier, argv):
     #      trace of the callee on lane i's arguments; densities, weights and return values are the per-lane sums/stacks
     inv = ["Coherent", "SimulateOK", "GenerateOK", "UpdateOK", "RegenerateOK"]
     allops = ["simulate", "generate", "update", "regenerate"]
+    sur = ["simulate", "update", "regenerate"]
+    # (tag, programs, operation kinds, operations per behaviour, constrained addresses, new arguments on update)
     if tier == "quick":
-        plans = [("a", ["vd"], allops, 2, "all"), ("b", ["fr", "vf"], ["simulate", "update", "regenerate"], 1, "same"),
-                 ("c", ["fvc", "frk"], allops, 2, "all")]
+        plans = [("a", ["vd"], allops, 2, 2, "all"), ("b", ["fr", "vf"], sur, 2, 1, "same"),
+                 ("c", ["fvc", "frk"], ["simulate", "generate"], 1, 2, "all"), ("d", ["fvc", "frk"], sur, 2, 1, "all")]
     else:
-        plans = [("a", ["vd", "fr"], allops, 2, "all"), ("b", ["vf", "fv"], allops, 1, "same"), ("c", ["fvf", "fvs"], ["simulate", "update", "regenerate"], 1, "same"), ("d", ["fvc", "frk"], allops, 2, "all")]
-    for tag, progs, ops, maxc, ua in plans:
-        cfg = gficheck.write_cfg(f"C08_{tier}_{tag}.cfg", progs, 2, ops, maxc, ua, inv, sim_scripts="few")
+        plans = [("a", ["vd", "fr"], allops, 2, 2, "all"), ("b", ["vf", "fv"], allops, 2, 1, "same"), ("c", ["fvf", "fvs"], sur, 2, 1, "same"),
+                 ("d", ["fvc", "frk"], ["simulate", "generate"], 1, 2, "all"), ("e", ["fvc", "frk"], sur, 2, 1, "all")]
+    for tag, progs, ops, nops, maxc, ua in plans:
+        cfg = gficheck.write_cfg(f"C08_{tier}_{tag}.cfg", progs, nops, ops, maxc, ua, inv, sim_scripts="few")
         info = gficheck.run_config(chk, cfg, set(ops), variant="eager", max_replay=350 if tier == "quick" else 6000,
                                    label=f"C08_{tier}_{tag}/Vmap-combinator", timeout=3400)
         chk.cov.setdefault("replay", []).append({"plan": tag, **info})
